@@ -4,7 +4,8 @@ From Replicat Require Import Gen.SchedFacts.
 Lemma sched_facts_hold : all_sched_facts = true.
 Proof. reflexivity. Qed.
 Lemma fact_slot_discipline :
-  fact_every_transfer_inside_a_slot && fact_slots_not_nested && fact_slot_released_in_finally && fact_concurrent_tokens = true.
+  fact_every_transfer_inside_a_slot && fact_slots_not_nested && fact_slot_released_in_finally && fact_concurrent_tokens
+  && fact_threads_never_wait_for_a_closed_loop = true.
 Proof. reflexivity. Qed.
 Lemma fact_pipeline_shape : fact_worker_exit_test && fact_abort_stops_producer = true.
 Proof. reflexivity. Qed.
